@@ -248,9 +248,14 @@ func c29sRun(x *mc.Exec, sc c29sScenario, rep *mc.Report) mc.Verdict {
 				continue
 			}
 			op, ok := mon.curOp[name]
-			if !ok || !(op.kind == c29sAcq || op.kind == c29sAcqCtx) || op.n <= mon.s.size {
+			if !ok || !(op.kind == c29sAcq || op.kind == c29sAcqCtx) {
 				legit = false
 			}
+		}
+		// the request at the FRONT of the queue is the one that can never fit; whatever queued behind it
+		// waits with it, as FIFO order demands
+		if front := mon.s.waiters.Front(); front == nil || front.Value.(waiter).n <= mon.s.size {
+			legit = false
 		}
 		if legit {
 			key := sc.name + "|" + strings.Join(log, ",") + "|request-heavier-than-size-parked"
